@@ -604,19 +604,21 @@ theorem extractBlockQuote_ok (cfg : MdCfg) (pm : ParseMethod) (hpm : PMGrammar c
 
 theorem gF_succ (mx d : Nat) (hd : d < mx) : gF mx d = gF mx (d + 1) + 2 := by unfold gF; omega
 
-theorem tokOk_quote (mx d : Nat) (hd : d < mx) (cs : List Json) (hcs : ∀ t ∈ cs, TokOk mx (d + 1) t) :
-    TokOk mx d (tok "block_quote" [("children", .arr cs)]) := by
+theorem tokOk_quote (mx d : Nat) (hd : d < mx) (ty : String) (hty : ty = "block_quote" ∨ ty = "block_spoiler")
+    (cs : List Json) (hcs : ∀ t ∈ cs, TokOk mx (d + 1) t) :
+    TokOk mx d (tok ty [("children", .arr cs)]) := by
   unfold TokOk
   rw [gF_succ mx d hd, preSeq_single]
   have hle : d ≤ mx := by omega
+  have hle1 : d + 1 ≤ mx := hd
   have hrec : preSeq (gF mx (d + 1) + 1) cs .block (d + 1) mx = true := by
     apply preSeq_mono
     unfold TokOk gF at hcs
     unfold gF
     exact (preSeq_iff _ _ _ _ _).2 hcs
-  simp [preTok, preView, tok, Json.get?, List.lookup, Json.s, isBlockCtx, optHas, optStr,
-      optArr, optList, attrsOkB, attrsOkT, attrsShape, plainJ, hle, hrec]
-  omega
+  rcases hty with e | e <;> subst e <;>
+    simp [preTok, preView, tok, Json.get?, List.lookup, Json.s, isBlockCtx, optHas, optStr,
+      optArr, optList, attrsOkB, attrsOkT, attrsShape, plainJ, hle, hle1, hrec]
 
 theorem tokensOk_insert {mx : Nat} {st : BlockState} {t : Json} (i : Nat) (h : TokensOk mx st)
     (ht : TokOk mx st.depth t) : TokensOk mx { st with tokens := listInsert st.tokens i t } := by
@@ -662,7 +664,46 @@ theorem parseBlockQuote_ok (cfg : MdCfg) (pm : ParseMethod) (hpm : PMGrammar cfg
   refine Sat.bind (parse_ok cfg pm hpm hatx _ _ hchild hrules) (fun child2 hc => ?_)
   have hdc : child2.depth = st1.depth + 1 := hc.2.1
   have htok : TokOk cfg.maxNested st1.depth (tok "block_quote" [("children", .arr child2.tokens)]) := by
-    refine tokOk_quote _ _ hd1 _ (fun t ht => ?_)
+    refine tokOk_quote _ _ hd1 _ (Or.inl rfl) _ (fun t ht => ?_)
+    have := hc.1.2.1 t ht
+    rw [hdc] at this
+    exact this
+  have hk2 : Keeps cfg.maxNested st { st1 with env := child2.env } := Keeps.env _ hk hc.1.2.2
+  extract_lets st2 token
+  split
+  · exact Sat.pure ⟨tokensOk_insert _ hk2.1 htok, hk2.2.1, hk2.2.2⟩
+  · exact Sat.pure (Keeps.append hk2 (by rw [← hk.2.1]; exact htok))
+
+/-- `spoiler.parse_block_spoiler`: a block quote whose token type is `block_spoiler` at the top level -/
+theorem parseBlockSpoiler_ok (cfg : MdCfg) (pm : ParseMethod) (hpm : PMGrammar cfg pm) (hatx : AtxSc cfg cfg.blockSpec)
+    (mt : RxMatch) (st : BlockState) (h : TokensOk cfg.maxNested st) (hd : st.depth < cfg.maxNested) :
+    Sat (GPost cfg.maxNested st) (parseBlockSpoiler cfg pm mt st) := by
+  unfold parseBlockSpoiler
+  extract_lets tokIndex
+  refine Sat.bind (extractBlockQuote_ok cfg pm hpm mt st h hd) ?_
+  rintro ⟨text, endPos, st1⟩ hk
+  dsimp only at hk
+  have hd1 : st1.depth < cfg.maxNested := by rw [hk.2.1]; exact hd
+  dsimp -zeta only
+  extract_lets text2 isSpoiler text3 tokType
+  have htt : tokType = "block_quote" ∨ tokType = "block_spoiler" := by
+    show (if isSpoiler = true then "block_spoiler" else "block_quote") = "block_quote" ∨
+      (if isSpoiler = true then "block_spoiler" else "block_quote") = "block_spoiler"
+    cases isSpoiler <;> simp
+  clear_value tokType text3
+  have hchild : TokensOk cfg.maxNested (st1.childState text3) := tokensOk_child st1 text3 hd1 hk.1.2.2
+  have hrules : RulesOk cfg.maxNested (st1.childState text3).depth (Option.getD (some (if st1.depth + 1 ≥ cfg.maxNested
+      then withoutContainers cfg.quoteRules else cfg.quoteRules)) cfg.blockRules) := by
+    show RulesOk cfg.maxNested (st1.depth + 1) (if st1.depth + 1 ≥ cfg.maxNested then _ else _)
+    split
+    · exact rulesOk_without _ _ _
+    · intro n _ _; omega
+  show Sat _ (parse cfg pm (st1.childState text3) (some (if st1.depth + 1 ≥ cfg.maxNested
+      then withoutContainers cfg.quoteRules else cfg.quoteRules)) >>= _)
+  refine Sat.bind (parse_ok cfg pm hpm hatx _ _ hchild hrules) (fun child2 hc => ?_)
+  have hdc : child2.depth = st1.depth + 1 := hc.2.1
+  have htok : TokOk cfg.maxNested st1.depth (tok tokType [("children", .arr child2.tokens)]) := by
+    refine tokOk_quote _ _ hd1 _ htt _ (fun t ht => ?_)
     have := hc.1.2.1 t ht
     rw [hdc] at this
     exact this
